@@ -51,7 +51,7 @@ func init() {
 		Units: func(tier string) []runner.Unit {
 			return append(units(tier), raceUnit(tier))
 		},
-		QuickBudget:    240,
+		QuickBudget:    600,
 		ThoroughBudget: 1800,
 	})
 }
